@@ -129,7 +129,10 @@ class _OsPath:
     return self._fs.isdir(p)
 
   def getsize(self, p):
-    return len(self._fs.files[self._fs.norm(p)])
+    q = self._fs.norm(p)
+    if q not in self._fs.files:
+      raise FileNotFoundError(2, 'No such file or directory', q)
+    return len(self._fs.files[q])
 
   def __getattr__(self, name):   # join, basename, splitext, dirname, expanduser, ...
     return getattr(posixpath, name)
